@@ -206,14 +206,36 @@ fn dispatch_twin(which: Which) {
     }
     let t = be16(b, 0);
     if which != Which::Generic && !is_grease(t) {
-        // recognition of a type does not depend on the content length: the same type with an empty body
-        let e = [b[0], b[1], 0, 0];
-        let r0 = ManuallyDrop::new(match which {
-            Which::Client => tp::parse_tls_client_hello_extension(&e[..]),
-            _ => tp::parse_tls_server_hello_extension(&e[..]),
-        });
-        if let (Ok((_, x0)), Ok((_, x))) = (&*r0, &*r) {
-            vassert!(matches!(x0, X::Unknown(_, _)) == matches!(x, X::Unknown(_, _)), "C05.dispatch.recognition_does_not_depend_on_content_length");
+        // recognition of a type does not depend on the content length. The stubbed harness decides this for
+        // every type; natively it can be replayed for the types whose real decoder accepts both an empty
+        // and some non-empty content (a fixed valid one is used, the symbolic content may be rejected).
+        let body: Option<&'static [u8]> = match t {
+            0 => Some(&[0, 0]),
+            5 => Some(&[1, 0]),
+            18 => Some(&[0, 0]),
+            21 | 35 | 40 | 41 | 44 | 51 => Some(&[7]),
+            42 => Some(&[0, 0, 0, 1]),
+            _ => None,
+        };
+        if let Some(body) = body {
+            let mut full = [0u8; 8];
+            full[0] = b[0];
+            full[1] = b[1];
+            full[3] = body.len() as u8;
+            let mut k = 0;
+            while k < body.len() {
+                full[4 + k] = body[k];
+                k += 1;
+            }
+            let e = [b[0], b[1], 0, 0];
+            let (r0, r1) = match which {
+                Which::Client => (tp::parse_tls_client_hello_extension(&e[..]), tp::parse_tls_client_hello_extension(&full[..4 + body.len()])),
+                _ => (tp::parse_tls_server_hello_extension(&e[..]), tp::parse_tls_server_hello_extension(&full[..4 + body.len()])),
+            };
+            let (r0, r1) = (ManuallyDrop::new(r0), ManuallyDrop::new(r1));
+            if let (Ok((_, x0)), Ok((_, x1))) = (&*r0, &*r1) {
+                vassert!(matches!(x0, X::Unknown(_, _)) == matches!(x1, X::Unknown(_, _)), "C05.dispatch.recognition_does_not_depend_on_content_length");
+            }
         }
     }
     if let Ok((_, x)) = &*r {
